@@ -491,6 +491,12 @@ def evaluate__ceiling_and_floor_functions(self: XPathFunction, context: ta.Conte
     arg = self.get_argument(context)
     if arg is None:
         return math.nan if self.parser.version == '1.0' else []
+    elif isinstance(arg, XPathNode) and arg.is_typed and not self.parser.compatibility_mode:
+        arg = self.data_value(arg)  # the typed value of a schema-typed node
+        if isinstance(arg, UntypedAtomic):
+            arg = self.cast_to_double(arg.value)
+        elif arg is None:
+            return []
     elif isinstance(arg, XPathNode) or self.parser.compatibility_mode:
         arg = self.number_value(arg)
 
@@ -520,6 +526,12 @@ def evaluate__round(self: XPathFunction, context: ta.ContextType = None) -> ta.O
     arg = self.get_argument(context)
     if arg is None:
         return math.nan if self.parser.version == '1.0' else []
+    elif isinstance(arg, XPathNode) and arg.is_typed and not self.parser.compatibility_mode:
+        arg = self.data_value(arg)  # the typed value of a schema-typed node
+        if isinstance(arg, UntypedAtomic):
+            arg = self.cast_to_double(arg.value)
+        elif arg is None:
+            return []
     elif isinstance(arg, XPathNode) or self.parser.compatibility_mode:
         arg = self.number_value(arg)
 
